@@ -116,6 +116,20 @@ def gen_live(rng, cid, big):
             f'seed={rng.below(1 << 30)} slow={slow}\nthread 0: run ;\nendcase')
 
 
+def gen_live_throw(rng, cid):
+    """C11c: several throwing calls on several workers (exception slot: the first exchange wins, the
+    others decrement without storing; the error token must be the stored one)."""
+    threads = rng.weighted([(4, 3), (6, 4), (8, 3), (12, 1)])
+    pool = rng.weighted([(0, 1), (1, 1)])
+    w = threads // 2 if pool == 1 else threads - threads // 2
+    code = rng.below(4)
+    n = rng.weighted([(8 * w + 1, 2), (16 * w + 3, 2), (64 + rng.below(300), 4), (rng.below(5000) + 1, 3)])
+    nthrow = 3 + rng.below(10)
+    slow = 1 if n <= 400 and rng.below(2) == 0 else 0
+    return (f'case {cid} kind=live threads={threads} pool={pool} S={code} n={n} nthrow={nthrow} '
+            f'seed={rng.below(1 << 30)} slow={slow}\nthread 0: run ;\nendcase')
+
+
 DEFECT_CASES = [
     # Shape = uint64, n = 2^32 + 5 on the real bulk: 5 calls (finding C11-arith-wrap)
     'case known-trunc kind=live threads=4 pool=0 S=3 n=4294967301 nthrow=0 seed=1 slow=0\nthread 0: run ;\nendcase',
@@ -221,6 +235,8 @@ def main():
             groups['bulk'].append(gen_arith(rng, f'a{base_seed}n{i}', budget))
         for i in range(int((1200 if thorough else 90) * scale)):
             groups['bulk'].append(gen_live(rng, f'l{base_seed}n{i}', 2000000 if thorough else 200000))
+        for i in range(int((200 if thorough else 16) * scale)):
+            groups['bulk'].append(gen_live_throw(rng, f't{base_seed}n{i}'))
 
     def run_groups(gr, tag):
         res = []
